@@ -294,8 +294,12 @@ def thresholds(repo, rep):
         if isinstance(n, ast.Call) and call_name(n) == "match_consecutive_partitions":
             lows = set()
             idx = None
-            for k in n.keywords:
-                v = k.value
+            from ..astutil import bound_args
+            b_ = bound_args(repo, p, n)
+            if b_ is None:
+                raise AnalysisError("np_track_partitions: call of match_consecutive_partitions not understood")
+            for karg, v in b_.items():
+                k = ast.keyword(arg=karg, value=v)
                 if isinstance(v, ast.Subscript):
                     sl = v.slice
                     elts = sl.elts if isinstance(sl, ast.Tuple) else [sl]
